@@ -3,14 +3,14 @@
 Writes /verif/refactors/PROP-K/{patch.diff,demo.py,meta.json}."""
 import json, os, shutil, subprocess, sys
 prop, k = sys.argv[1], sys.argv[2]
-wt = f'/tmp/seed_{prop}'
+wt = os.environ.get('REF_WT_PREFIX', '/tmp/seed_') + prop
 py = '/venv/bin/python'
 env = dict(os.environ, PYTHONPATH=wt)
 def run(cmd, timeout=900):
     return subprocess.run(cmd, cwd=wt, env=env, capture_output=True, text=True, timeout=timeout)
 diff, demo, meta = f'{wt}/ref{k}.diff', f'{wt}/ref{k}_demo.py', f'{wt}/ref{k}_meta.txt'
 assert os.path.exists(diff) and os.path.exists(demo), 'missing deliverables'
-run(['git', 'checkout', '--', 'mido'])
+run(['git', 'checkout', '--', 'mido']); run(['git', 'clean', '-fdq', 'mido'])
 clean_demo = run(['timeout', '200', py, demo]).returncode
 a = run(['git', 'apply', diff]); assert a.returncode == 0, a.stderr
 try:
@@ -23,7 +23,7 @@ try:
         lines = [ln for ln in c.stdout.splitlines() if (' - R' in ln or 'ANALYSIS-ERROR' in ln or 'analysable' in ln) and not ln.startswith('KNOWN')]
         checks[pid] = (c.returncode, lines[:3])
 finally:
-    run(['git', 'checkout', '--', 'mido'])
+    run(['git', 'checkout', '--', 'mido']); run(['git', 'clean', '-fdq', 'mido'])
 shutil.rmtree(f'/tmp/ev_ref_{prop}', ignore_errors=True)
 alarms = {p: v for p, v in checks.items() if v[0] != 0}
 print(f'{prop}-{k}: pytest exit {t.returncode} | demo clean rc={clean_demo} refactored rc={d} | alarms: {sorted(alarms) or "none"}')
